@@ -131,6 +131,9 @@ impl Content {
                 v
             }
             Content::GzipOf(inner) => crate::util::gzip_stored(&inner.materialize()),
+            // (beyond 16 GiB no model copy: such files exist only in campaigns whose oracle does not
+            // read file contents - C04 extreme_sizes)
+            Content::Sparse { len, .. } if *len > 16 << 30 => Vec::new(),
             Content::Sparse { len, seed } => {
                 // alloc_zeroed: the pages are mapped lazily, only the islands are touched
                 let mut v = vec![0u8; *len as usize];
@@ -249,6 +252,10 @@ pub struct Faults {
     /// message (&str payload), Some(true) = with a formatted one (String payload)
     #[serde(default)]
     pub handler_panic: Option<bool>,
+    /// duplicating the socket (TcpStream::try_clone) fails with EMFILE: the process is at its
+    /// descriptor limit. The pinned tree never duplicates a socket.
+    #[serde(default)]
+    pub dup_err: bool,
 }
 
 impl Default for Faults {
@@ -264,13 +271,18 @@ impl Default for Faults {
             flush_err: None,
             handler_err: false,
             handler_panic: None,
+            dup_err: false,
         }
     }
 }
 
 impl Faults {
+    /// (dup_err does not count: it is a fault only for code that duplicates the socket, and then the
+    /// connection's `fired` list says so)
     pub fn is_clean(&self) -> bool {
-        *self == Faults::default()
+        let mut f = self.clone();
+        f.dup_err = false;
+        f == Faults::default()
     }
     /// nothing but short writes
     pub fn only_cuts(&self) -> bool {
